@@ -60,10 +60,7 @@ TIMEOUT = {"quick": 900, "thorough": 5400}
 # validation.  Until it is either repaired or listed in KNOWN_FINDINGS.json the mechanisms below are
 # counted ("open_finding_*", evidence key open_findings_reproduced) instead of raised; run with
 # VERIF_C13_STRICT=1 to raise them.  Remove the entry once the setter validates.
-OPEN_FINDINGS = {
-    "C13:photon.detector=:": "Detector.photon = <Photon of another geometry / another kind of container> "
-                             "stores the foreign array unvalidated (wrong shape, wrong dtype, negatives)",
-}
+OPEN_FINDINGS: dict = {}  # the Detector.photon setter finding was repaired in /repo (see KNOWN_FINDINGS.json)
 STRICT = os.environ.get("VERIF_C13_STRICT", "") not in ("", "0")
 
 KINDS = ("photon", "pixel", "signal", "image", "phase")
